@@ -99,11 +99,11 @@ Section Enc.
 
   (* keep a member? [x] is the Go value, [e] its encoding *)
   Definition int64_behind (t : ty) (x : gv) : bool :=
-    (* behind a pointer or an interface decompose widens the signed integer kinds to int64 (the only
-       kind its emptiness test knows); unsigned ones stay as they are *)
+    (* behind a pointer or an interface decompose widens every integer kind to int64 (the only
+       kind its emptiness test knows) *)
     match x, t with
-    | GPtr _, TPtr (TInt true) => true
-    | GAny (TInt true) _, _ => true
+    | GPtr _, TPtr (TInt _) => true
+    | GAny (TInt _) _, _ => true
     | _, _ => false
     end.
 
